@@ -284,3 +284,23 @@ package data
 //@   loop 0 invariant -1 <= i && i < len(nd.Dims)
 //@   loop 0 invariant contiguousOffset == pfrom(nd.Dims, i+1, len(nd.Dims)) && iff(dimsMustBeOne, !agree(nd.Dims, nd.OriginalDims, i+1, len(nd.Dims)))
 //@   loop 0 invariant forall(k, i+1, len(nd.Dims), implies(nd.Dims[k] > 1, agree(nd.Dims, nd.OriginalDims, k+1, len(nd.Dims)) && nd.Step[k] <= 1 && nd.Offset[k] <= pfrom(nd.Dims, k+1, len(nd.Dims))))
+
+// =====================================================================
+// Lemmas by induction (pure mathematics about the spec functions)
+// =====================================================================
+
+// extensionality of the dot product
+//@ induct [C01.lemma-idot-ext] (a []int, b []int, os []int) n : implies(forall(k, 0, n, a[k] == b[k]), idot(a, os, n) == idot(b, os, n))
+
+// Lemma A (views compose): if the child's strides are the parent's strides times the
+// step, then indexing the child with v is indexing the parent with v*step
+//@ induct [C01.lemma-A-compose] (v []int, w []int, u []int, os []int) n : implies(forall(k, 0, n, v[k]*w[k] == u[k]*os[k]), idot(v, w, n) == idot(u, os, n))
+
+// additivity: indexing with loc + u is the sum of the two offsets
+//@ induct [C01.lemma-idot-add] (a []int, b []int, c []int, os []int) n : implies(forall(k, 0, n, c[k] == a[k] + b[k]), idot(c, os, n) == idot(a, os, n) + idot(b, os, n))
+
+// C01, the statement itself, for every rank n: with the child's strides w = os*s
+// (C01.compose-stride) and its start = parent start + loc.os (C01.compose-start),
+// indexing the child with v addresses the parent's element t = loc + v*s:
+//   idot(v, w, n) + idot(loc, os, n) == idot(t, os, n)
+//@ induct [C01.compose-index] (v []int, s []int, loc []int, os []int, w []int, t []int) n : implies(forall(k, 0, n, w[k] == os[k]*s[k] && t[k] == loc[k] + v[k]*s[k]), idot(v, w, n) + idot(loc, os, n) == idot(t, os, n))
